@@ -304,8 +304,22 @@ Ctes(B, T, D, i, e, acc) ==
                   ELSE LET m == MatchParen(T, lp)
                            q == IF m = 0 THEN GErr("unbalanced_cte") ELSE ParseAnyAt(B, T, D, lp + 1, m)
                        IN IF ~q.ok THEN q
-                          ELSE LET c == [name |-> T[i].v, cols |-> cols, mat |-> mat, q |-> q.v] IN
-                            IF Tk(T, m + 1).k = "comma" THEN Ctes(B, T, D, m + 2, e, Append(acc, c)) ELSE GOk(Append(acc, c), m + 1)
+                          ELSE LET \* PostgreSQL: ( stmt ) [SEARCH {BREADTH|DEPTH} FIRST BY col SET col] [CYCLE col SET col USING col]
+                                   hasS == IsWordU(T, m + 1, "SEARCH")
+                                   sOk == hasS /\ (IsWordU(T, m + 2, "BREADTH") \/ IsWordU(T, m + 2, "DEPTH")) /\ IsWordU(T, m + 3, "FIRST") /\ IsWordU(T, m + 4, "BY")
+                                              /\ Tk(T, m + 5).k = "qid" /\ IsWordU(T, m + 6, "SET") /\ Tk(T, m + 7).k = "qid"
+                                   srch == IF sOk THEN [k |-> "some", order |-> T[m + 2].u, by |-> T[m + 5].v, set |-> T[m + 7].v] ELSE [k |-> "none"]
+                                   c0 == IF sOk THEN m + 8 ELSE m + 1
+                                   hasC == IsWordU(T, c0, "CYCLE")
+                                   cOk == hasC /\ Tk(T, c0 + 1).k = "qid" /\ IsWordU(T, c0 + 2, "SET") /\ Tk(T, c0 + 3).k = "qid" /\ IsWordU(T, c0 + 4, "USING") /\ Tk(T, c0 + 5).k = "qid"
+                                   cyc == IF cOk THEN [k |-> "some", col |-> T[c0 + 1].v, set |-> T[c0 + 3].v, using |-> T[c0 + 5].v] ELSE [k |-> "none"]
+                                   nx == IF cOk THEN c0 + 6 ELSE c0
+                                   c == [name |-> T[i].v, cols |-> cols, mat |-> mat, q |-> q.v, search |-> srch, cycle |-> cyc]
+                               IN IF (hasS \/ hasC) /\ B # "pg" THEN GErr("search_cycle_clause_is_postgres_only")
+                                  ELSE IF hasS /\ ~sOk THEN GErr("malformed_SEARCH_clause")
+                                  ELSE IF hasC /\ ~cOk THEN GErr("malformed_CYCLE_clause")
+                                  ELSE IF IsWordU(T, nx, "SEARCH") THEN GErr("clause_out_of_order:SEARCH_after_CYCLE")
+                                  ELSE IF Tk(T, nx).k = "comma" THEN Ctes(B, T, D, nx + 1, e, Append(acc, c)) ELSE GOk(Append(acc, c), nx)
 ParseWithAt(B, T, D, s, e) ==      \* returns GOk([recursive, ctes], index of the statement proper)
   LET rec == IsWordU(T, s + 1, "RECURSIVE")
       c == Ctes(B, T, D, IF rec THEN s + 2 ELSE s + 1, e, <<>>)
@@ -441,4 +455,16 @@ ParseStmt(B, sql) ==
   ELSE LET T == Fuse(Norm(T0), 1)
            D == DepthsOf(T)
        IN IF \E i \in DOMAIN D : D[i] < 0 THEN GErr("unbalanced_parentheses") ELSE ParseAnyAt(B, T, D, 1, Len(T) + 1)
+
+\* the same statement without its trailing top-level WINDOW clause (sea-query writes that clause last); used to
+\* judge the rest of a statement whose WINDOW clause is rejected for a recorded reason
+ParseStmtCut(B, sql) ==
+  LET T0 == Lex(B, sql) IN
+  IF \E i \in DOMAIN T0 : T0[i].k = "bad" THEN GErr("illegal_token")
+  ELSE LET T == Fuse(Norm(T0), 1)
+           D == DepthsOf(T)
+           ws == {i \in DOMAIN T : T[i].k = "word" /\ T[i].u = "WINDOW" /\ D[i] = 0}
+       IN IF \E i \in DOMAIN D : D[i] < 0 THEN GErr("unbalanced_parentheses")
+          ELSE IF ws = {} THEN GErr("no_top_level_WINDOW")
+          ELSE ParseAnyAt(B, T, D, 1, CHOOSE i \in ws : \A j \in ws : j <= i)
 =============================================================================
